@@ -114,6 +114,7 @@ def scenario(policy, shape, kind, inject_at=None, line_level=True, requester=Tru
                     lag_steps = sched.steps - state['stop_step'] if state['stop_step'] is not None else 0
                     lag_us = int(round((sched.vtime - state['stop_time']) * 1000000)) if state['stop_time'] is not None else 0
                     events.append({'e': 'ended', 'r': run, 'steps': lag_steps, 'us': lag_us})
+                    state.setdefault('end_steps', {})[run] = sched.steps
                     state['current'][self.dev] = None
 
             def watch_clock(self, run):
@@ -232,7 +233,8 @@ def scenario(policy, shape, kind, inject_at=None, line_level=True, requester=Tru
     sched.events = events
     sched.meta = {'full': [full.get(r, 0) for r in range(1, nruns[0] + 1)], 'nruns': nruns[0],
                   'names': [names.get(r, '') for r in range(1, nruns[0] + 1)],
-                  'a_started_step': next((i for i, e in enumerate(events) if e['e'] == 'started' and e['r'] == 1), None)}
+                  'a_started_step': next((i for i, e in enumerate(events) if e['e'] == 'started' and e['r'] == 1), None),
+                  'end_steps': dict(state.get('end_steps', {}))}
     return sched
 
 
@@ -245,9 +247,18 @@ def task(args):
         ref_steps = ref.steps if ref is not None else 700
         prefix = [c[1] for c in ref.choices] if ref is not None else []
         points = list(range(0, min(ref_steps, 900), stride))[:budget]
+        # "as the script finishes": every single scheduling point from just before the first run's execute() returns until
+        # the controller has taken note of it
+        end1 = ref.meta.get('end_steps', {}).get(1) if ref is not None else None
+        tail = [p for p in range(end1 - 6, end1 + 70)] if end1 is not None else []
         for idx, at in enumerate(points):
             sched = scenario(detsched.Replay(prefix), shape, kind, inject_at=at)
             out.append((shape, kind, 'inject@%d' % at, [c[1] for c in sched.choices][:400], sched.events, sched.meta))
+            pass
+        for at in tail:
+            sched = scenario(detsched.Replay(prefix), shape, kind, inject_at=at)
+            out.append((shape, kind, 'finish@%d' % at, [c[1] for c in sched.choices][:400], sched.events, sched.meta))
+        for idx, at in enumerate(points):
             every = 12 if stride >= 7 else 3
             if idx % every == every // 4:
                 # the same point with exactly one preemption of the request by the job thread, at every k-th step of the call
